@@ -110,13 +110,16 @@ func (f *Filter) Filter(query *linear.Seq, selfAlign, complement bool, morass *m
 		return err
 	}
 
-	err = f.tubeEnd(query.Len() - 1)
+	// The scan ends at the start of the last k-mer of the query.
+	last := query.Len() - f.k
+
+	err = f.tubeEnd(last)
 	if err != nil {
 		return err
 	}
 
-	diagFrom := f.diagIndex(f.target.Len()-1, query.Len()-1) - tubeWidth
-	diagTo := f.diagIndex(0, query.Len()-1) + tubeWidth
+	diagFrom := f.diagIndex(f.target.Len()-1, last) - tubeWidth
+	diagTo := f.diagIndex(0, last) + tubeWidth
 
 	tubeFrom := f.tubeIndex(diagFrom)
 	if tubeFrom < 0 {
